@@ -1560,7 +1560,7 @@ rv = .false.
                 fmt.f_array_allocate = "(" + ",".join(visitor.shape) + ")"
                 if c_ast.attrs["context"]:
                     fmt.f_array_shape = wformat(
-                        ", {c_var_context}%shape(1:{rank})", fmt)
+                        ",\t {c_var_context}%shape(1:{rank})", fmt)
 
         return ntypemap
 
